@@ -42,8 +42,9 @@
      - a call that never reached the wire, or that was cut by cancellation, may or
        may not have a row; the row of a call that never reached the wire has no
        place in the transmission order (it may stand anywhere);
-     - the reply column of a call that raised may be NULL or any reply delivered
-       to that call; the exception column of a cancelled call is free;
+     - the reply column of a call that raised for another reason than a refused
+       (mismatching / malformed) reply may be NULL or any reply delivered to that
+       call; the exception column of a cancelled call is free;
      - a reply that was not accepted (call raised) need not have a receive time;
      - when the handler was never closed, rows may be missing (never wrong).  *)
 EXTENDS Integers, Sequences, TLC
@@ -53,8 +54,11 @@ Last(s) == s[Len(s)]
 MustLog(x, e) == x.closed /\ e.impl = "on" /\ e.nw > 0 /\ e.out # "cancel"
 MayLog(e)     == e.impl # "off"
 
+\* A reply that was received and refused as mismatching / malformed (e.illegal) is still "what the ECU
+\* sent": the row holds exactly those bytes.  Other raised calls (timeout, connection error, pending limit)
+\* may hold NULL or any reply delivered to the call.
 ReplyOk(r, e) ==
-  IF e.out = "ret"
+  IF e.out = "ret" \/ (e.out = "exc" /\ e.illegal /\ Len(e.replies) > 0)
   THEN r.hasResp /\ Len(e.replies) > 0 /\ r.resp = Last(e.replies)
   ELSE ~r.hasResp \/ \E k \in 1..Len(e.replies) : r.resp = e.replies[k]
 
